@@ -68,6 +68,10 @@ def cases(draw, tier="quick"):
     elif c["kind"] == "dir":
         c["tree"] = draw(trees())
         c["dname"] = draw(st.sampled_from(["d", "dir with space", "ünï-dir", ".hid"]))
+        c["deep_recv"] = draw(st.integers(0, 7)) == 0
+        if c["deep_recv"]:
+            c["tree"] = dict(c["tree"])
+            c["tree"]["x" * 200] = 3          # fits below the sender's directory, not below the receiver's
     else:
         c["text"] = draw(st.one_of(st.text(alphabet=st.characters(blacklist_categories=("Cs",)), min_size=1, max_size=40),
                                    st.sampled_from(ODD_TEXT)))
@@ -83,6 +87,10 @@ def cases(draw, tier="quick"):
         c["fault_at"] %= 4000
         if not c["tree"] and draw(st.integers(0, 4)) > 0:
             c["tree"] = {"a": 3}
+    if c.get("grow"):
+        # one fault dimension at a time: with an acknowledgement that was stripped of its hash the sender cannot
+        # notice that the receiver kept less than it read, and no clause of the statement covers that combination
+        c["fault"] = "none"
     n = draw(st.integers(0, 200))
     c["tape"] = draw(st.binary(min_size=n, max_size=n))
     return c
@@ -159,6 +167,14 @@ def run_case(c):
         rd = os.path.join(base, "r")
         os.mkdir(sd)
         os.mkdir(rd)
+        if c.get("deep_recv"):
+            # the receiver works in a directory whose own path is close to PATH_MAX: members that were fine for the
+            # sender cannot be created here (the receiver has to fail, not to skip them)
+            while len(rd) + 241 <= 3900:
+                rd = os.path.join(rd, "d" * 240)
+            if len(rd) + 2 <= 3900:
+                rd = os.path.join(rd, "e" * (3900 - len(rd) - 1))
+            os.makedirs(rd)
         sa, ra = cfg("send"), cfg("receive")
         relay_url = W.start_relay() if c.get("relay") else ""
         for a, d in ((sa, sd), (ra, rd)):
@@ -194,7 +210,16 @@ def run_case(c):
         ns = NodeReactor(W, "S", "10.0.0.1")
         nr = NodeReactor(W, "R", "10.0.0.2")
         W.clients_nodes = (ns, nr)
-        ds = cmd_send.send(sa, reactor=ns)
+        from wormhole.cli import cli as cli_mod
+        dispatch = getattr(cli_mod, "_dispatch_command", None)
+
+        def run_cmd(fn, args_, node):
+            # "reports success" is what the `wormhole` command does with the outcome: cli.go() runs the command through
+            # _dispatch_command(), whose Deferred decides the exit status (SystemExit(1) on the errors it knows)
+            if dispatch is None:
+                return fn(args_, reactor=node)
+            return dispatch(node, args_, lambda: fn(args_, reactor=node))
+        ds = run_cmd(cmd_send.send, sa, ns)
         ds.addBoth(lambda r: out.__setitem__("s", r))
         started_r = [False]
 
@@ -206,7 +231,7 @@ def run_case(c):
                 import re
                 m = re.search(r"wormhole receive (\S+)", txt) or re.search(r"code is: (\S+)", txt)
                 ra.code = m.group(1)
-            dr = cmd_receive.receive(ra, reactor=nr)
+            dr = run_cmd(cmd_receive.receive, ra, nr)
             dr.addBoth(lambda r: out.__setitem__("r", r))
         if c["code"] == "set":
             start_receiver()
@@ -357,6 +382,8 @@ def run_case(c):
             # names that are not valid UTF-8: the pinned sender refuses such a tree (UnicodeEncodeError), which
             # satisfies the statement; not part of the anti-vacuity ratio
             res.notes["undecodable_name_cases:%s" % ("both-ok" if s_ok and r_ok else "refused")] += 1
+        elif faulted[0] is None and c.get("deep_recv"):
+            res.notes["deep_receiver_cases:%s" % ("both-ok" if s_ok and r_ok else "failed")] += 1
         elif faulted[0] is None and grown[0]:
             res.notes["changed_file_cases:%s" % ("both-ok" if s_ok and r_ok else "failed")] += 1
         elif faulted[0] is None:
@@ -404,7 +431,7 @@ def run_case(c):
         res.features = dict(kind=kind, fault=c["fault"], applied=faulted[0] or "-", code=c["code"],
                             listen="%d%d" % tuple(c["listen"]), relay=bool(c.get("relay")), big=big, s_ok=s_ok, r_ok=r_ok,
                             stale_tmp=c.get("stale_tmp") is not None, outfile=bool(c.get("outfile")),
-                            changed=bool(grown[0]))
+                            changed=bool(grown[0]), deep=bool(c.get("deep_recv")))
         res.trace = ",".join(W.trace[:200])
         res.steps = W.steps
         res.sample = dict(case={k: v for k, v in c.items() if k != "tape"}, sender=_short(S), receiver=_short(R),
